@@ -43,12 +43,24 @@ def highlevel(ctx, model, cov):
         for k, (sp, sub, mx) in enumerate(plan):
             db = os.path.join(work, f"c01-{os.getpid()}-{k}.db")
             out = common.RecStream()
+            # half of the terminals are CONFIGURED with another space/subspace and get the requested one per call
+            per_call = (k % 2 == 1)
+            other_sp = [x for x in ("8bit", "32bit", "16bit") if x != sp][k % 2]
             t = tupimage.TupimageTerminal(out_command=out, out_display=common.RecStream(), in_response=tty_in, id_database=db, config="DEFAULT",
-                                          id_space=sp, id_subspace=sub, max_ids_per_subspace=mx, upload_method="direct", redetect_terminal=False)
+                                          id_space=(other_sp if per_call else sp), id_subspace=("200:210" if per_call else sub),
+                                          max_ids_per_subspace=mx, upload_method="direct", redetect_terminal=False)
+            kw = {"id_space": sp, "id_subspace": sub} if per_call else {}
             ids = []
-            for j in range(8):
+            for j in range(9):
                 n_before = len(out.writes)
-                inst = t.upload(imgs[j % len(imgs)], force_upload=True) if j % 2 == 0 else t.assign_id(imgs[j % len(imgs)], cols=1 + j % 3, rows=1)
+                if j % 3 == 0:
+                    inst = t.upload(imgs[j % len(imgs)], force_upload=True, **kw)
+                elif j % 3 == 1:
+                    inst = t.assign_id(imgs[j % len(imgs)], cols=1 + j % 3, rows=1, **kw)
+                else:
+                    ph = t.upload_and_display(imgs[j % len(imgs)], force_upload=True, **kw)
+                    inst = t.get_image_instance(ph.image_id) or type("I", (), {"id": ph.image_id})()
+                    inst.id = ph.image_id
                 sent = b"".join(out.writes[n_before:])
                 ids.append([inst.id, sent[:120].hex()])
             res.append([sp, sub, mx, ids])
